@@ -403,6 +403,78 @@ pub fn run(ctx: &Ctx) -> Report {
             index += 1;
         }
     }
+    // (c) a long run in one process: more refusals at the signature comparison than fit in 16 bits (thorough: in 20
+    //     bits), each with another wrong signature; every error and every record at Debug level or above of the whole
+    //     run is searched for the correct signature (nothing may start to appear after many refusals)
+    {
+        env::set_log_mode_level(env::LOG_CAPTURE, log::LevelFilter::Debug);
+        let _ = env::take_captured();
+        let secret = SECRETS[0];
+        let mut plan = e2e::base_plan(refmodel::sign::Carrier::Header);
+        e2e::rekey(&mut plan, secret, "us-east-1", "service");
+        let built = refmodel::sign::build(&plan);
+        let sig = built.signed.signature.clone();
+        let base_wire = crate::sut::WireReq::from_wire(&built.wire);
+        let cfg = crate::sut::Cfg::basic(e2e::base_instant());
+        let prov = ProvSpec::Derive(vec![(e2e::ACCESS_KEY.to_string(), secret.to_string())]);
+        let runs: u64 = if ctx.tier.thorough() { (1 << 20) + 300 } else { (1 << 16) + 300 };
+        let needle_lower = sig.clone().into_bytes();
+        let needle_upper = sig.to_uppercase().into_bytes();
+        let auth_index = base_wire.headers.iter().position(|h| h.0.eq_ignore_ascii_case("authorization")).unwrap();
+        let auth_text = String::from_utf8_lossy(&base_wire.headers[auth_index].1).to_string();
+        for n in 0..runs {
+            let wrong = format!("{:016x}{:016x}{:016x}{:016x}", n, !n, n.wrapping_mul(0x9E3779B97F4A7C15), n ^ 0x5555_5555_5555_5555);
+            let mut w = base_wire.clone();
+            w.headers[auth_index].1 = auth_text.replace(&sig, &wrong).into_bytes();
+            let mut provider = prov.to_provider();
+            let r = sut::validate(&w, &cfg, &mut provider);
+            let records = env::take_captured();
+            st.evaluations += 1;
+            st.validated += 1;
+            st.transitions += 1 + records.len() as u64;
+            if n % 4096 == 0 {
+                st.nontrivial(&("long-run", n));
+            }
+            let mut texts: Vec<(String, Vec<u8>)> = records.iter().map(|(lvl, target, msg)| (format!("log {} {}", lvl, target), msg.clone().into_bytes())).collect();
+            match &r {
+                SutResult::Err(e) => {
+                    texts.push(("error Display".into(), e.display.clone().into_bytes()));
+                    texts.push(("error Debug".into(), e.debug.clone().into_bytes()));
+                }
+                other => {
+                    st.violation(Violation {
+                        index: 1_000_000 + n,
+                        what: "long-run:wrong-signature-not-refused".into(),
+                        case: json!({"long_run_step": n}),
+                        expected: "Err(SignatureDoesNotMatch)".into(),
+                        observed: other.label(),
+                        known: None,
+                    });
+                    break;
+                }
+            }
+            searched_records += records.len() as u64;
+            let mut leaked = false;
+            for (name, text) in &texts {
+                if contains(text, &needle_lower) || contains(text, &needle_upper) {
+                    st.violation(Violation {
+                        index: 1_000_000 + n,
+                        what: format!("leak:correct signature of a refused request in {} after {} refusals in this process", name, n),
+                        case: json!({"long_run_step": n, "refusals_before": n}),
+                        expected: "no valid signature in any observable, however many requests were refused before".into(),
+                        observed: String::from_utf8_lossy(text).chars().take(300).collect(),
+                        known: None,
+                    });
+                    leaked = true;
+                }
+            }
+            if leaked {
+                break;
+            }
+        }
+        st.outcome("long-run");
+        st.state("long-run");
+    }
     env::set_log_mode(env::LOG_OFF);
     // machinery self-test: the searcher does find a planted needle in every encoding
     {
@@ -417,7 +489,7 @@ pub fn run(ctx: &Ctx) -> Report {
     st.sample(0, 1, || json!({"observables": ["error Display/Debug", "key types Debug/Display", "provider request/response Debug", "CanonicalRequest/AuthParams/SigV4Authenticator Debug", "log records >= debug"], "needles_per_secret": n_needles / 3}));
     Report {
         stats: st,
-        rule: "3 secrets x 47 request classes (one per stage of the documented order on each carrier, valid, wrong signature, and presented signatures of 7 unusual shapes: truncated, empty, extended, doubled, upper-case, non-hex; and wrong signatures with request and server clock on different sides of a day, month, leap-day and year boundary) x 13 provider outcomes (key, wrong key, ExpiredToken, io error, private error type, a private error type whose message is harmless and whose derived Debug shows the key record it was handling; the key together with each of 7 identities — IAM user, assumed role, federated user, root, service, canonical user, user + role — from a store indexed by the access key alone, so also for requests without a session token); observables: the returned error's Display and Debug, the response Debug, Debug/Display (plain and alternate) of the five key types, GetSigningKeyRequest/Response, SigV4AuthenticatorResponse, CanonicalRequest, AuthParams, SigV4Authenticator, KeyTooLongError from five refused constructions (capacity one short, stray line ending, capacities 0/3/4/36, long input), and every log record at level >= Debug captured by the harness logger during validation and during key construction / refusal / derivation (Trace records counted, not searched); needles: secret, AWS4+secret, kDate, kRegion, kService, kSigning, each raw, hex, HEX, base64, base64url, as a decimal byte list and ascii-escaped, plus the correct signature of each refused request that did not present it (under the true key and under the key the provider handed out), searched in that request's observables and in those of every later validation of the run. states = (class, provider, outcome)".into(),
+        rule: "3 secrets x 47 request classes (one per stage of the documented order on each carrier, valid, wrong signature, and presented signatures of 7 unusual shapes: truncated, empty, extended, doubled, upper-case, non-hex; and wrong signatures with request and server clock on different sides of a day, month, leap-day and year boundary) x 13 provider outcomes (key, wrong key, ExpiredToken, io error, private error type, a private error type whose message is harmless and whose derived Debug shows the key record it was handling; the key together with each of 7 identities — IAM user, assumed role, federated user, root, service, canonical user, user + role — from a store indexed by the access key alone, so also for requests without a session token); observables: the returned error's Display and Debug, the response Debug, Debug/Display (plain and alternate) of the five key types, GetSigningKeyRequest/Response, SigV4AuthenticatorResponse, CanonicalRequest, AuthParams, SigV4Authenticator, KeyTooLongError from five refused constructions (capacity one short, stray line ending, capacities 0/3/4/36, long input), and every log record at level >= Debug captured by the harness logger during validation and during key construction / refusal / derivation (Trace records counted, not searched); needles: secret, AWS4+secret, kDate, kRegion, kService, kSigning, each raw, hex, HEX, base64, base64url, as a decimal byte list and ascii-escaped, plus the correct signature of each refused request that did not present it (under the true key and under the key the provider handed out), searched in that request's observables and in those of every later validation of the run; finally 2^16 + 300 (thorough 2^20 + 300) requests with ever different wrong signatures are refused in one process and every error and record at Debug level or above of that run is searched for the correct signature. states = (class, provider, outcome)".into(),
         bounds: json!({"secrets": 3, "classes": classes.len(), "provider_outcomes": 5}),
         exhaustive: true,
         assumptions: vec!["needles shorter than 16 bytes are not searched (accidental matches)".into()],
